@@ -392,8 +392,32 @@ func registerExterns(w *World) {
 		st.assume("(>= " + info + " 0)")
 		st.assume("(>= " + e + " 0)")
 		st.assume(eq(eq(e, "0"), not(eq(info, "0"))))
+		st.setRegion("G!g_stat_info", "Int", info)
+		st.setRegion("G!g_stat_err", "Int", e)
 		rt := c.fn.Signature.Results()
 		c.k(st, Val{K: KTuple, Fs: []Val{term(info, rt.At(0).Type()), term(e, rt.At(1).Type())}})
+	})
+	w.ext("os/signal.NotifyContext", "signal.NotifyContext(parent, sigs...): a context cancelled when parent is or when one of the signals arrives; stop releases resources (no modelled effect)", func(ex *Exec, st *State, c *callCtx) {
+		ctx := st.allocRef("sigctx")
+		g := st.region("G!g_sigctx", "Int")
+		_ = g
+		st.setRegion("G!g_sigctx", "Int", ctx)
+		rt := c.fn.Signature.Results()
+		c.k(st, Val{K: KTuple, Fs: []Val{term(ctx, rt.At(0).Type()), {K: KFunc, Typ: rt.At(1).Type(), Meta: "noop"}}})
+	})
+	w.ext("context.Background", "context.Background(): a non-nil context", func(ex *Exec, st *State, c *callCtx) {
+		c.k(st, term(st.allocRef("bgctx"), c.fn.Signature.Results().At(0).Type()))
+	})
+	w.ext("log.Fatalln", "log.Fatalln: logs and exits with status 1 (ghost g_fatal = true; the path ends)", func(ex *Exec, st *State, c *callCtx) {
+		st.setRegion("G!g_fatal", "Bool", "true")
+		if ex.contract != nil {
+			e := &env{vars: map[string]Val{}}
+			for _, en := range ex.contract.ensures {
+				if strings.HasPrefix(en.label, "fatal") {
+					ex.proveSpec(st, en.expr, e, ex.rootName+"/ensures:"+en.label, "ensures", en.src)
+				}
+			}
+		}
 	})
 	w.iext("io/fs.FileInfo.Mode", "FileInfo.Mode(): uninterpreted function of the info object, a uint32", func(ex *Exec, st *State, c *callCtx) {
 		ex.nilCheckTerm(st, c.args[0].T, c.site)
@@ -656,6 +680,9 @@ func externEventWrite(ex *Exec, st *State, c *callCtx) {
 	}
 	refs := st.region("G!out!#ref", arr("Int", "Int"))
 	st.setRegion("G!out!#ref", arr("Int", "Int"), store(refs, n, e.T))
+	// ghost: position (index + 1) at which the event object was written
+	wa := st.region("G!writtenat", arr("Int", "Int"))
+	st.setRegion("G!writtenat", arr("Int", "Int"), store(wa, e.T, "(+ "+n+" 1)"))
 	// ghost provenance of the event object (set by contracts of the functions that build events)
 	for _, g := range []string{"src", "by"} {
 		if _, ok := ex.w.ghostVars["g_ev"+g]; ok {
